@@ -1157,6 +1157,8 @@ class Evaluator:
             return TList(base.items)
         if isinstance(base, (TStr, TList, TBlock)):
             return ('method', base, attr)
+        if isinstance(base, tuple) and base and base[0] == 'strtemplate':
+            return ('method', base, attr)
         if base is TNone:
             return self.opaque(f'attribute {attr} of None')
         return self.opaque(f'attribute {attr} of {type(base).__name__}')
@@ -1659,6 +1661,12 @@ class Evaluator:
                     return lit(getattr(_re, callee[1].split('.')[1])(*[a.const() for a in args]))
                 except _re.error:
                     return self.opaque(f'{callee[1]} with an invalid pattern')
+            if callee[1] == 'dataclasses.asdict' and len(args) == 1 and isinstance(args[0], TObj):
+                names_ = list(self.prog.class_fields(args[0].cls))
+                if all(n_ in args[0].fields for n_ in names_):
+                    return ('dict', [(lit(n_), args[0].fields[n_]) for n_ in names_])
+            if callee[1] == 'string.Template' and len(args) == 1 and isinstance(args[0], TStr) and args[0].is_const():
+                return ('strtemplate', args[0].const())
             if callee[1] == 'itertools.groupby' and args:
                 key = args[1] if len(args) > 1 else kwargs.get('key')
                 if isinstance(key, tuple) and key and (key[0] == 'lambda' or key == ('builtin', 'type')) and \
@@ -1741,6 +1749,33 @@ class Evaluator:
         return None
 
     def method_call(self, recv: Any, meth: str, e: ast.Call, env, fn, depth) -> Any:
+        if isinstance(recv, tuple) and recv and recv[0] == 'strtemplate' and meth in ('substitute', 'safe_substitute'):
+            # string.Template over a constant text with constant values: constant folding of a pure library function
+            mapping = {}
+            ok = True
+            for a_ in e.args:
+                v_ = self.eval(a_, env, fn, depth)
+                if isinstance(v_, tuple) and v_ and v_[0] == 'dict':
+                    for k_, x_ in v_[1]:
+                        if isinstance(k_, TStr) and k_.is_const() and isinstance(x_, TStr) and x_.is_const():
+                            mapping[k_.const()] = x_.const()
+                        else:
+                            ok = False
+                else:
+                    ok = False
+            for k_ in e.keywords:
+                v_ = self.eval(k_.value, env, fn, depth) if k_.arg else None
+                if k_.arg and isinstance(v_, TStr) and v_.is_const():
+                    mapping[k_.arg] = v_.const()
+                else:
+                    ok = False
+            if ok:
+                import string as _string
+                try:
+                    return lit(getattr(_string.Template(recv[1]), meth)(mapping))
+                except (KeyError, ValueError) as exc_:
+                    return TRaise(f'string.Template.{meth}: {type(exc_).__name__}') if 'TRaise' in globals() else self.opaque(f'Template.{meth} fails')
+            return self.opaque(f'string.Template.{meth} with values that are not constant')
         if isinstance(recv, tuple) and recv and recv[0] == 'dict' and meth == 'get' and 1 <= len(e.args) <= 2:
             k = self.eval(e.args[0], env, fn, depth)
             dflt = self.eval(e.args[1], env, fn, depth) if len(e.args) == 2 else TNone
